@@ -113,6 +113,8 @@ def _work(lines):
         k = key_of(rec["t"])
         kids = [key_of(c) for c in children(rec["t"])]
         for r in res:
+            if r["status"].startswith("_"):
+                continue
             r.setdefault("key", k)
             r.setdefault("kids", kids)
             r.setdefault("sig", term_sig(rec["t"]))
@@ -150,6 +152,9 @@ class Replay:
         self.samples = []
         self.tlc_runs = []
         self.sigs = Counter()
+        self.events = []
+        self.fired = Counter()
+        self.skipped = Counter()
 
     def run_lens(self, module, cfg=None, workers=16, simulate=None, timeout=3600, limit=None):
         run = tlc.TLCRun(module, cfg=cfg, workers=workers, simulate=simulate, timeout=timeout)
@@ -193,6 +198,15 @@ class Replay:
     def _absorb(self, results):
         for r in results:
             st = r["status"]
+            if st == "_event":
+                self.events.append(r["event"])
+                continue
+            if st == "_stats":
+                for k, n in r["fired"].items():
+                    self.fired[k] += n
+                for k, n in r["skipped"].items():
+                    self.skipped[k] += n
+                continue
             if st == "_rec":
                 self.records += 1
                 if not r["leaf"]:
